@@ -1091,6 +1091,25 @@ def register(I):
     def as_slice(I, st, args, info):
         return umap(lambda x: SliceV(seq_of(I, x, st)), deref_all(I, args[0], st))
 
+    @reg("<impl [T]>::split", "<impl [T]>::split_inclusive")
+    def slice_split(I, st, args, info):
+        """sub-slices separated by the elements for which pred(&element) holds (concrete verdicts only)"""
+        s = seq_of(I, deref_all(I, args[0], st), st)
+        incl = info.path.last() == "split_inclusive"
+        parts, cur = [], []
+        for x in s:
+            v = I.call1(args[1], [ValRef(x)], st)
+            if not isinstance(v, bool):
+                raise Unsupported("slice::split with a symbolic predicate verdict")
+            if v:
+                parts.append(cur + [x] if incl else cur)
+                cur = []
+            else:
+                cur.append(x)
+        if cur or not incl:
+            parts.append(cur)
+        return IterV([ValRef(SliceV(tuple(p_))) for p_ in parts])
+
     @reg("<impl [T]>::first")
     def first(I, st, args, info):
         def f(x):
@@ -1196,7 +1215,17 @@ def register(I):
         cur = I.read_ref(r, st)
         add = args[1]
         items = drive(I, add, st) if isinstance(add, IterV) else seq_of(I, add, st)
-        I.write_cell(r.key, r.path, umap(lambda c: VecV(c.items + tuple(items)), cur), st)
+        def ext(c):
+            if isinstance(c, StringV):
+                out = []
+                for x in items:
+                    if is_scalar(x):
+                        out.append(x)
+                    else:
+                        out.extend(as_str_items(I, x, st))
+                return StringV(c.items + tuple(out))
+            return VecV(c.items + tuple(items))
+        I.write_cell(r.key, r.path, umap(ext, cur), st)
         return ()
 
     # ----------------------------------------------------------------- iterators
@@ -1369,11 +1398,41 @@ def register(I):
             return outs[0][1] if outs[0][0] is st else outs
         return outs
 
+    @reg("Iterator::by_ref")
+    def it_by_ref(I, st, args, info):
+        return args[0]
+
     @reg("Iterator::take")
     def it_take(I, st, args, info):
-        if not isinstance(args[1], int):
-            raise Unsupported("symbolic take count")
-        return IterV(drive(I, args[0], st)[:args[1]])
+        """take(n); through `by_ref()` the taken elements are removed from the underlying iterator (done eagerly: the Take is
+        assumed to be driven to its end, as `for`, `extend` and `collect` do); a symbolic count forks on the number taken"""
+        src = args[0]
+        ref = src if isinstance(src, Ref) else None
+        it = I.read_ref(ref, st) if ref is not None else src
+        items = drive(I, it, st)
+        n = args[1]
+        if isinstance(n, int):
+            if ref is not None:
+                I.write_cell(ref.key, ref.path, IterV(items[n:]), st)
+            return IterV(items[:n])
+        outs = []
+        for g0, nv in (list(alts_of(n)) if isinstance(n, Union) else [(True, n)]):
+            if isinstance(nv, ByteLen):
+                nv = nv.term() if nv.items is not None else nv.n
+            for k in range(len(items) + 1):
+                if isinstance(nv, int):
+                    g = g0 if (nv == k or (k == len(items) and nv >= k)) else False
+                else:
+                    g = b_and(g0, (nv == k) if k < len(items) else z3.UGE(nv, k))
+                if g is False or (g is not True and not I.feasible(st.pc, g)):
+                    continue
+                s2 = st.fork(g) if g is not True else st
+                if ref is not None:
+                    I.write_cell(ref.key, ref.path, IterV(items[k:]), s2)
+                outs.append((s2, IterV(items[:k])))
+        if len(outs) == 1 and outs[0][0] is st:
+            return outs[0][1]
+        return outs
 
     @reg("Iterator::zip")
     def it_zip(I, st, args, info):
